@@ -7,6 +7,7 @@ whitespace), MATCH-AHEAD (the look-ahead helper compares every char).
 import itertools
 
 import facts
+import q
 from facts import walk, walk_with_path, peel, lit, call_is, variant_of, adt_is, pat_str, or_pats, strip_ref, subpat
 from show import show
 
@@ -147,7 +148,7 @@ def run(rep):
         detail = "no `if <cmp> { break }` in parse_expr"
         for n in breaks:
             c = n["cond"]
-            l, r = peel(c["lhs"]), peel(c["rhs"])
+            l, r = q.resolve(body, c["lhs"]), q.resolve(body, c["rhs"])
             detail = show(c)
             if c["op"] == "Ge" and l.get("k") == "Var" and l.get("id") == rbp_id and call_is(r, "Token::binding_power"):
                 ok = True
